@@ -344,9 +344,24 @@ func tail(path string, n int) string {
 		b = append(append([]byte{}, b[:1<<20]...), b[len(b)-(1<<20):]...)
 	}
 	lines := strings.Split(string(b), "\n")
-	// find the fault header
+	// find the fault header: a fatal fault wins over race reports
+	first := -1
 	for i, l := range lines {
-		if strings.HasPrefix(l, "fatal error:") || strings.HasPrefix(l, "panic:") || strings.Contains(l, "WARNING: DATA RACE") || strings.HasPrefix(l, "runtime: out of memory") || strings.HasPrefix(l, "runtime: goroutine stack exceeds") {
+		if strings.HasPrefix(l, "fatal error:") || strings.HasPrefix(l, "panic:") || strings.HasPrefix(l, "runtime: out of memory") || strings.HasPrefix(l, "runtime: goroutine stack exceeds") {
+			first = i
+			break
+		}
+	}
+	if first < 0 {
+		for i, l := range lines {
+			if strings.Contains(l, "WARNING: DATA RACE") {
+				first = i
+				break
+			}
+		}
+	}
+	for i := range lines {
+		if i == first {
 			end := i + n
 			if end > len(lines) {
 				end = len(lines)
@@ -479,15 +494,13 @@ func merge(id string, sp spec, tier string, seed uint64, results []*shardResult,
 					}
 					continue
 				}
-				if f, ok := v.(float64); ok {
-					if old, ok := extra[k].(float64); ok {
-						extra[k] = old + f
-					} else if _, exists := extra[k]; !exists {
-						extra[k] = f
-					}
-				} else if _, exists := extra[k]; !exists {
+				if _, exists := extra[k]; !exists {
 					extra[k] = v
 				}
+			}
+			for k, v := range fr.ExtraSum {
+				old, _ := extra[k].(int64)
+				extra[k] = old + v
 			}
 			samplesByShard = append(samplesByShard, fr.Samples)
 			for i, v := range fr.Violations {
